@@ -6,32 +6,25 @@ From OL Require Import theories.Stake proofs.StakeProofs.
 Open Scope Z_scope.
 
 (* ---- the validator's total equals the sum of its delegators' locked amounts ---- *)
-(* Full statement (for every history): refuted by C11_validator_total_refuted_1 — the allegation
-   penalty goes through the non-atomic MinusFromAddress.  Partial: every history in which each
-   penalty is applied atomically (complement of the trigger C11.penalty_not_atomic). *)
-Theorem C11_validator_total_partial : forall os,
-  guarded trig_penalty_not_atomic empty_state os = true ->
+(* FULL since fix cb71748 (the allegation penalty is applied all or nothing): every history, every
+   environment input, every verdict; no guard. *)
+Theorem C11_validator_total : forall os,
   let s := run empty_state os in
   (forall v, zget (vtot s) v = esum_v s v) /\ (forall d, zget (deff s) d = esum_d s d).
-Proof. exact validator_total_partial. Qed.
-Print Assumptions C11_validator_total_partial.
+Proof. exact validator_total. Qed.
+Print Assumptions C11_validator_total.
 
-(* witness = the history findings/C11_penalty_not_atomic.json runs on the real application *)
+(* the former witness of C11_validator_total_refuted_1 (finding C11.penalty_not_atomic, replayed on
+   the real application on every run): stake address changed in the block of the verdict *)
 Definition w_penalty : list op :=
   [OGenStake 1 2 3000000; OGenStake 5 6 2998000; OBegin []; OEnd 1 [];
    OBegin []; OUnstake 5 6 2998000 false false 2 0 false false; OEnd 2 [];
    OBegin []; OWithdraw 5 6 2998000 false false; OStake 5 12 5000 false (1000000 * base) 3 0 false false;
    OEnd 3 [(5%positive, 30, 100)]].
-Theorem C11_validator_total_refuted_1 : exists os,
-  guarded trig_penalty_not_atomic empty_state os = false /\
-  zget (vtot (run empty_state os)) 5%positive <> esum_v (run empty_state os) 5%positive.
-Proof. exists w_penalty. split; vm_compute; [reflexivity | discriminate]. Qed.
-Print Assumptions C11_validator_total_refuted_1.
-Example C11_validator_total_nonvacuous :
-  guarded trig_penalty_not_atomic empty_state
-    [OGenStake 1 2 3000; OBegin []; OStake 1 2 500 false (10 * base) 2 3 false false;
-     OUnstake 1 2 700 false false 2 3 false false; OEnd 2 [(1%positive, 30, 100)]] = true.
-Proof. vm_compute. reflexivity. Qed.
+Example C11_former_witness_penalty_holds :
+  let s := run empty_state w_penalty in
+  zget (vtot s) 5%positive = 5000 /\ esum_v s 5%positive = 5000 /\ zget (eff s) (5%positive, 12%positive) = 5000 /\ pend s = [].
+Proof. vm_compute. repeat split. Qed.
 
 (* ---- nothing happens while the validator named in the transaction is frozen ---- *)
 Theorem C11_frozen : forall s v d a bal h m ro pb ff,
@@ -102,20 +95,61 @@ Example C11_former_witness_negative_rejected :
   step empty_state (OWithdraw 3 4 (-7) false false) = (empty_state, false).
 Proof. repeat split; vm_compute; reflexivity. Qed.
 
-(* ---- the v_ record's stake equals st__t_ : refuted (trigger C11.validator_record_deleted_with_stake) ---- *)
+(* ---- the validator's recorded stake (v_) equals the validator total (st__t_) ----
+   Since fixes e681066 (record deleted only when the CURRENT record is powerless; HandleUnstake
+   refuses a negative stake) and cb71748 (record update postponed only when the penalty was applied):
+   for every history the record's stake equals the total plus the penalty decided in the last
+   end-block and still to be applied by the next BeginBlock (pend = [] after every BeginBlock), the
+   power equals the stake, and a validator without a record has no locked stake.
+   What remains assumed (record_trig = false at every step):
+     - genesis amounts are non-negative                                   (gen_nonneg)
+     - no validator record reaches 2^63 whole OLT (calculatePower narrows) (stake_overflow)
+     - PenaltyBasePercentage >= 0 and PenaltyBaseDecimals > 0              (verdict_params_ok)
+     - no postponed penalty is refused by the purge-height rule in BeginBlock
+       (trig_postponed_blocked — this one is a FINDING, refuted below and reproduced on the real code) *)
+Theorem C11_validator_record_partial : forall os,
+  guarded record_trig empty_state os = true ->
+  let s := run empty_state os in
+  forall v,
+    match vrecs s !! v with
+    | Some r => vr_staking r = zget (vtot s) v + entries_of (pend s) v /\ vr_power r = vr_staking r /\ 0 <= vr_staking r
+    | None => zget (vtot s) v = 0
+    end.
+Proof. exact validator_record. Qed.
+Print Assumptions C11_validator_record_partial.
+
+(* non-vacuity: a history with stake, unstake, a verdict with penalty and the postponed update *)
+Example C11_validator_record_nonvacuous :
+  guarded record_trig empty_state
+    [OGenStake 1 2 3000; OBegin []; OStake 1 2 500 false (10000 * base) 2 3 false false;
+     OUnstake 1 2 700 false false 2 3 false false; OEnd 2 [(1%positive, 30, 100)]; OBegin []; OEnd 3 []] = true.
+Proof. vm_compute. reflexivity. Qed.
+
+(* refuted without the last assumption (trigger C11.postponed_penalty_blocked): the verdict of block 3
+   reduces st__t_ from 500 to 350; BeginBlock 4 refuses the record update (validator purged in block 3) *)
+Definition w_blocked : list op :=
+  [OGenStake 5 6 2998000; OBegin []; OEnd 1 []; OBegin []; OUnstake 5 6 2997500 false false 2 2 false false; OEnd 2 [];
+   OBegin []; OEnd 3 [(5%positive, 30, 100)]; OBegin [5%positive]; OEnd 4 []].
+Theorem C11_validator_record_refuted_1 : exists os,
+  guarded record_trig empty_state os = false /\
+  guarded (fun s o => negb (gen_nonneg o) || stake_overflow s o || negb (verdict_params_ok o)) empty_state os = true /\
+  let s := run empty_state os in
+  exists r, vrecs s !! 5%positive = Some r /\ vr_staking r = 500 /\ zget (vtot s) 5%positive = 350 /\ pend s = [].
+Proof. exists w_blocked. split; [|split]; vm_compute; [reflexivity|reflexivity|]. exists (VRec 6%positive 500 500). repeat split. Qed.
+Print Assumptions C11_validator_record_refuted_1.
+
+(* the former witness (finding C11.validator_record_deleted_with_stake, fixed by e681066): the record
+   now survives the end-block and stays equal to the total *)
 Definition w_deleted : list op :=
   [OGenStake 5 6 2998000; OBegin []; OEnd 1 [];
    OBegin []; OUnstake 5 6 2998000 false false 2 2 false false; OEnd 2 [];
    OBegin []; OStake 5 6 5000 false (1000000 * base) 3 2 false false; OEnd 3 [];
    OBegin []; OEnd 4 []; OBegin []; OStake 5 6 10 false (1000000 * base) 5 2 false false; OEnd 5 []].
-Theorem C11_validator_record_refuted_1 : exists os,
-  let s := run empty_state os in
-  exists r, vrecs s !! 5%positive = Some r /\ vr_staking r <> zget (vtot s) 5%positive /\
-  trig_deleted_with_stake (run empty_state (firstn 8 os)) (OEnd 3 []) = true.
-Proof.
-  exists w_deleted. exists (VRec 6%positive 10 10). vm_compute. split; [reflexivity|]. split; [discriminate|reflexivity].
-Qed.
-Print Assumptions C11_validator_record_refuted_1.
+Example C11_former_witness_deleted_holds :
+  guarded record_trig empty_state w_deleted = true /\
+  vrecs (run empty_state w_deleted) !! 5%positive = Some (VRec 6%positive 5010 5010) /\
+  zget (vtot (run empty_state w_deleted)) 5%positive = 5010.
+Proof. vm_compute. repeat split. Qed.
 
 (* ---- maturity (step level) ---- *)
 Theorem C11_maturity_unstake_entry : forall s v d a ro h m pb ff s',
